@@ -255,7 +255,8 @@ class Gen:
         opts = [
             (2, lambda: ['name', rng.choice(UNKNOWN)]),
             (3, lambda: ['name', rng.choice(allnames)]),
-            (1, lambda: ['call', ['name', rng.choice(allnames)], [self.expr('any', max(d - 1, 0), sc)]]),
+            (1, lambda: ['call', ['name', rng.choice([x for x in allnames if x != 'id' or x in self.genv])],
+                         [self.expr('any', max(d - 1, 0), sc)]]),
             (1, lambda: ['attr', ['name', rng.choice(allnames)], rng.choice(['K', 'S', 'gcd', 'p', 'q'])]),
             (1, lambda: ['bin', rng.choice(['add', 'eq', 'lt']), self.expr('any', max(d - 1, 0), sc),
                          self.expr('any', max(d - 1, 0), sc)]),
